@@ -872,30 +872,40 @@ def validate_pool(ctx, events):
     return rej
 
 
-def tiny_inputs_with_keys(seed, wanted, tries=400):
-    """small simulated inputs whose likelihood cache has exactly K keys, for K in wanted"""
-    from . import build
+def tiny_inputs_with_keys(seed, wanted):
+    """tiny inputs whose likelihood cache has exactly K keys: a comb tree on K + 2 contemporaneous samples has
+    K edges above non-sample nodes, all of the same span; the j-th of them carries j - 1 mutations, so the
+    keys (mutation count, span) are pairwise distinct.  Leaf edges carry a seeded number of mutations."""
     rng = np.random.default_rng(seed + 4242)
     found = {}
-    for _ in range(tries):
-        if set(found) >= set(wanted):
-            break
-        n = int(rng.integers(1, 3))
-        ts = build.sim(n=n, L=int(rng.choice([20, 40, 100])), rho=float(rng.choice([0, 2e-3, 1e-2])), mu=2e-2, Ne=50,
-                       seed=int(rng.integers(1, 2 ** 31)))
-        if ts.num_mutations == 0:
-            continue
-        samples = set(ts.samples().tolist())
-        if max(t.num_roots for t in ts.trees()) > 1:
-            continue
-        me = np.zeros(ts.num_edges, dtype=int)
-        for m in ts.mutations():
-            if m.edge != tskit.NULL:
-                me[m.edge] += 1
-        keys = {(int(me[e.id]), float(e.span)) for e in ts.edges() if e.child not in samples}
-        K = len(keys)
-        if K in wanted and K not in found:
-            found[K] = inputs.Inp(f"tiny{seed}_K{K}", ts, 2e-2, 50, {"contemp"})
+    for K in sorted(wanted):
+        n = K + 2
+        L = float(rng.choice([50, 100, 400]))
+        t = tskit.TableCollection(sequence_length=L)
+        for _ in range(n):
+            t.nodes.add_row(flags=tskit.NODE_IS_SAMPLE, time=0.0)
+        for i in range(n - 1):
+            t.nodes.add_row(flags=0, time=float(i + 1) * 10.0)
+        t.edges.add_row(0, L, n, 0)
+        t.edges.add_row(0, L, n, 1)
+        for i in range(1, n - 1):
+            t.edges.add_row(0, L, n + i, n + i - 1)
+            t.edges.add_row(0, L, n + i, i + 1)
+        on_node = [(n + i - 1, i - 1) for i in range(1, n - 1)]            # internal edges: 0 .. K-1 mutations
+        on_node += [(u, int(rng.integers(0, 3))) for u in range(n)]        # leaf edges
+        pos = 0
+        for u, k in on_node:
+            for _ in range(k):
+                site = t.sites.add_row(position=float(pos), ancestral_state="0")
+                t.mutations.add_row(site=site, node=u, derived_state="1")
+                pos += 1
+        if t.mutations.num_rows == 0:
+            site = t.sites.add_row(position=float(pos), ancestral_state="0")
+            t.mutations.add_row(site=site, node=0, derived_state="1")
+        t.sort()
+        t.build_index()
+        t.compute_mutation_parents()
+        found[K] = inputs.Inp(f"comb{seed}_K{K}", t.tree_sequence(), 1e-3, 20, {"contemp"})
     return found
 
 
